@@ -888,4 +888,316 @@ theorem truncation_in_range (src : Src α) (o : Opts) (mask : List Bool) (fts : 
     exact this
   omega
 
+/-! ## sorted feature list -/
+
+theorem insertBy_sorted (a : String) : ∀ l : List String, l.Pairwise (· ≤ ·) →
+    (insertBy (fun a b => decide (a ≤ b)) a l).Pairwise (· ≤ ·) := by
+  intro l
+  induction l with
+  | nil => intro _; simp [insertBy]
+  | cons b t ih =>
+    intro h
+    simp only [insertBy]
+    split
+    · rename_i hab
+      have hab : a ≤ b := by simpa using hab
+      refine List.Pairwise.cons ?_ h
+      intro x hx
+      rcases List.mem_cons.mp hx with rfl | hx
+      · exact hab
+      · exact String.le_trans hab ((List.pairwise_cons.mp h).1 x hx)
+    · rename_i hab
+      have hba : b ≤ a := by
+        rcases String.le_total a b with h1 | h1
+        · exact absurd (by simpa using h1) hab
+        · exact h1
+      refine List.Pairwise.cons ?_ (ih (List.pairwise_cons.mp h).2)
+      intro x hx
+      rcases (mem_insertBy _ a x t).mp hx with rfl | hx
+      · exact hba
+      · exact (List.pairwise_cons.mp h).1 x hx
+
+theorem isort_sorted : ∀ l : List String,
+    (isort (fun a b => decide (a ≤ b)) l).Pairwise (· ≤ ·) := by
+  intro l
+  induction l with
+  | nil => simp [isort]
+  | cons a t ih => exact insertBy_sorted a _ ih
+
+theorem insertBy_perm {β : Type} (le : β → β → Bool) (a : β) : ∀ l : List β,
+    (insertBy le a l).Perm (a :: l) := by
+  intro l
+  induction l with
+  | nil => simp [insertBy]
+  | cons b t ih =>
+    simp only [insertBy]
+    split
+    · exact List.Perm.refl _
+    · exact (List.Perm.cons b ih).trans (List.Perm.swap a b t)
+
+theorem isort_perm {β : Type} (le : β → β → Bool) : ∀ l : List β, (isort le l).Perm l := by
+  intro l
+  induction l with
+  | nil => simp [isort]
+  | cons a t ih => exact (insertBy_perm le a _).trans (List.Perm.cons a ih)
+
+/-- two duplicate-free lists in ascending order with the same members are equal -/
+theorem sorted_nodup_ext : ∀ (l₁ l₂ : List String), l₁.Pairwise (· ≤ ·) → l₂.Pairwise (· ≤ ·) →
+    l₁.Nodup → l₂.Nodup → (∀ a, a ∈ l₁ ↔ a ∈ l₂) → l₁ = l₂ := by
+  intro l₁
+  induction l₁ with
+  | nil =>
+    intro l₂ _ _ _ _ h
+    cases l₂ with
+    | nil => rfl
+    | cons b u => exact absurd ((h b).mpr (List.mem_cons_self)) (by simp)
+  | cons a t ih =>
+    intro l₂ h1 h2 n1 n2 h
+    cases l₂ with
+    | nil => exact absurd ((h a).mp (List.mem_cons_self)) (by simp)
+    | cons b u =>
+      have hab : a = b := by
+        have ha := (h a).mp List.mem_cons_self
+        have hb := (h b).mpr List.mem_cons_self
+        rcases List.mem_cons.mp ha with e | ha
+        · exact e
+        · rcases List.mem_cons.mp hb with e | hb
+          · exact e.symm
+          · exact String.le_antisymm ((List.pairwise_cons.mp h1).1 b hb)
+              ((List.pairwise_cons.mp h2).1 a ha)
+      subst hab
+      congr 1
+      apply ih u (List.pairwise_cons.mp h1).2 (List.pairwise_cons.mp h2).2
+        (List.nodup_cons.mp n1).2 (List.nodup_cons.mp n2).2
+      intro x
+      constructor
+      · intro hx
+        have := (h x).mp (List.mem_cons_of_mem _ hx)
+        rcases List.mem_cons.mp this with e | hx'
+        · subst e; exact absurd hx (List.nodup_cons.mp n1).1
+        · exact hx'
+      · intro hx
+        have := (h x).mpr (List.mem_cons_of_mem _ hx)
+        rcases List.mem_cons.mp this with e | hx'
+        · subst e; exact absurd hx (List.nodup_cons.mp n2).1
+        · exact hx'
+
+/-! ## prefixed log / table names -/
+
+theorem prefix_injective (pfx a b : String) (h : pfx ++ a = pfx ++ b) : a = b :=
+  (String.append_right_inj pfx).mp h
+
+theorem prefixed_names {β : Type} (pfx : String) (xs : List (String × β)) :
+    (prefixed pfx xs).map (·.1) = (xs.map (·.1)).map (pfx ++ ·) := by
+  simp [prefixed, List.map_map, Function.comp_def]
+
+theorem prefixed_nodup {β : Type} (pfx : String) (xs : List (String × β))
+    (h : (xs.map (·.1)).Nodup) : ((prefixed pfx xs).map (·.1)).Nodup := by
+  rw [prefixed_names]
+  induction xs with
+  | nil => simp
+  | cons x t ih =>
+    simp only [List.map_cons, List.nodup_cons] at h ⊢
+    refine ⟨?_, ih h.2⟩
+    intro hm
+    obtain ⟨b, hb, hbe⟩ := List.mem_map.mp hm
+    have := prefix_injective pfx _ _ hbe
+    exact h.1 (this ▸ hb)
+
+theorem appendLog_absent (logs : List (String × List String)) (name : String) (lines : List String)
+    (h : name ∉ logs.map (·.1)) : appendLog logs name lines = logs ++ [(name, lines)] := by
+  induction logs with
+  | nil => rfl
+  | cons x t ih =>
+    obtain ⟨n, l⟩ := x
+    simp only [List.map_cons, List.mem_cons, not_or] at h
+    simp only [appendLog]
+    rw [if_neg (fun e => h.1 e.symm), ih h.2]
+    rfl
+
+/-- storing logs whose names are new and pairwise different adds them unchanged -/
+theorem appendLogs_fresh : ∀ (new logs : List (String × List String)),
+    (new.map (·.1)).Nodup → (∀ n ∈ new.map (·.1), n ∉ logs.map (·.1)) →
+    appendLogs logs new = logs ++ new := by
+  intro new
+  induction new with
+  | nil => intro logs _ _; simp [appendLogs]
+  | cons x t ih =>
+    intro logs hnd hdis
+    simp only [List.map_cons, List.nodup_cons] at hnd
+    have hx : x.1 ∉ logs.map (·.1) := hdis x.1 (by simp)
+    show appendLogs (appendLog logs x.1 x.2) t = _
+    rw [appendLog_absent logs x.1 x.2 hx, ih _ hnd.2]
+    · simp
+    · intro n hn
+      simp only [List.map_append, List.map_cons, List.map_nil, List.mem_append, List.mem_cons,
+        List.not_mem_nil, or_false, not_or]
+      refine ⟨hdis n (by simp [hn]), ?_⟩
+      intro e; subst e; exact hnd.1 hn
+
+theorem appendLogs_nil (new : List (String × List String)) (h : (new.map (·.1)).Nodup) :
+    appendLogs [] new = new := by
+  simpa using appendLogs_fresh new [] h (by simp)
+
+theorem findLog_of_mem : ∀ (logs : List (String × List String)) (n : String) (l : List String),
+    (logs.map (·.1)).Nodup → (n, l) ∈ logs → findLog logs n = some l := by
+  intro logs
+  induction logs with
+  | nil => intro n l _ h; cases h
+  | cons x t ih =>
+    intro n l hnd hm
+    obtain ⟨m, k⟩ := x
+    simp only [List.map_cons, List.nodup_cons] at hnd
+    simp only [findLog]
+    rcases List.mem_cons.mp hm with e | hm
+    · cases e; simp
+    · have : m ≠ n := by
+        intro e; subst e
+        exact hnd.1 (List.mem_map.mpr ⟨(m, l), hm, rfl⟩)
+      rw [if_neg this]
+      exact ih n l hnd.2 hm
+
+/-! ## directories -/
+
+theorem dirGet_erase_self (d : Dir α) (p : String) : dirGet (dirErase d p) p = none := by
+  induction d with
+  | nil => rfl
+  | cons x t ih =>
+    obtain ⟨q, f⟩ := x
+    by_cases h : q = p
+    · simp [dirErase, List.filter, h]; simpa [dirErase] using ih
+    · have : dirErase ((q, f) :: t) p = (q, f) :: dirErase t p := by simp [dirErase, List.filter, h]
+      rw [this]; simp only [dirGet, if_neg h]; exact ih
+
+theorem dirGet_erase_other (d : Dir α) (p q : String) (h : q ≠ p) :
+    dirGet (dirErase d p) q = dirGet d q := by
+  induction d with
+  | nil => rfl
+  | cons x t ih =>
+    obtain ⟨r, f⟩ := x
+    by_cases hr : r = p
+    · have : dirErase ((r, f) :: t) p = dirErase t p := by simp [dirErase, List.filter, hr]
+      rw [this, ih]
+      simp only [dirGet]
+      rw [if_neg (by rw [hr]; exact fun e => h e.symm)]
+    · have : dirErase ((r, f) :: t) p = (r, f) :: dirErase t p := by simp [dirErase, List.filter, hr]
+      rw [this]; simp only [dirGet]; rw [ih]
+
+theorem dirErase_absent (d : Dir α) (p : String) (h : dirGet d p = none) : dirErase d p = d := by
+  induction d with
+  | nil => rfl
+  | cons x t ih =>
+    obtain ⟨r, f⟩ := x
+    simp only [dirGet] at h
+    by_cases hr : r = p
+    · simp [hr] at h
+    · rw [if_neg hr] at h
+      have : dirErase ((r, f) :: t) p = (r, f) :: dirErase t p := by simp [dirErase, List.filter, hr]
+      rw [this, ih h]
+
+theorem dirErase_idem (d : Dir α) (p : String) : dirErase (dirErase d p) p = dirErase d p :=
+  dirErase_absent _ _ (dirGet_erase_self d p)
+
+theorem dirGet_set_self (d : Dir α) (p : String) (f : File α) : dirGet (dirSet d p f) p = some f := by
+  simp [dirSet, dirGet]
+
+theorem dirGet_set_other (d : Dir α) (p q : String) (f : File α) (h : q ≠ p) :
+    dirGet (dirSet d p f) q = dirGet d q := by
+  simp only [dirSet, dirGet]
+  rw [if_neg (fun e => h e.symm)]
+  exact dirGet_erase_other d p q h
+
+/-- on an empty file the append-mode export is the export to a fresh path, provided the source's
+log names are pairwise different (they are the keys of a mapping) -/
+theorem exportOnto_empty [Inhabited α] (src : Src α) (o : Opts) (mask : List Bool)
+    (feats : List String) (hl : (src.logs.map (·.1)).Nodup) :
+    exportOnto src o mask feats emptyFile = exportHdf5 src o mask feats := by
+  have hlogs : appendLogs [] (if o.logs = true then prefixed o.pfx src.logs else [])
+      = (if o.logs = true then List.map (fun l => (o.pfx ++ l.fst, l.snd)) src.logs else []) := by
+    split
+    · rw [appendLogs_nil _ (prefixed_nodup o.pfx src.logs hl)]; rfl
+    · rfl
+  unfold exportOnto exportHdf5
+  simp only [emptyFile, List.filter_nil, List.append_nil, List.nil_append, hlogs]
+  rfl
+
+theorem readEv_ne_nil_mem (ev : Events α) (f : String) (h : readEv ev f ≠ []) :
+    f ∈ ev.map (·.1) := by
+  induction ev with
+  | nil => exact absurd rfl h
+  | cons x t ih =>
+    obtain ⟨g, v⟩ := x
+    simp only [readEv] at h
+    by_cases hg : g = f
+    · simp [hg]
+    · rw [if_neg hg] at h
+      exact List.mem_cons_of_mem _ (ih h)
+
+/-- the entries of the exported file carry requested names, each with that feature's target rows -/
+theorem export_run_names [Inhabited α] (src : Src α) (o : Opts) (mask : List Bool)
+    (feats : List String) (fts : List (Feat α)) (hlk : lookupAll src (normFeats feats) = some fts)
+    (hok : Ok o fts (effMask src o mask fts)) (fl : File α)
+    (hfl : exportHdf5 src o mask feats = some fl) :
+    ∀ p ∈ fl.events, p.1 ∈ feats ∧ ∃ ft, lookup src p.1 = some ft ∧
+      p.2 = target (effMask src o mask fts) ft := by
+  obtain ⟨hA, hB⟩ := lookupAll_spec src _ _ hlk
+  obtain ⟨ev', hrun, _, _, hM⟩ := storeAll_spec src o hok.cs hok.csw (effMask src o mask fts)
+    (normFeats feats) [] (nodup_normFeats feats) (fun _ _ => rfl)
+    (by
+      intro f hf
+      obtain ⟨ft, hft, hl⟩ := hA f hf
+      exact ⟨ft, hl, hok.nonempty ft hft, fun m hm => hok.inRange m hm ft hft,
+        fun m hm => hok.notLonger m hm ft hft⟩)
+  unfold exportHdf5 at hfl
+  simp only [hlk, hrun, Option.some.injEq] at hfl
+  subst hfl
+  intro p hp
+  rcases hM p hp with h | ⟨f, hf, ft, hft, hp⟩
+  · cases h
+  · subst hp
+    exact ⟨(mem_normFeats f feats).mp hf, ft, hft, rfl⟩
+
+/-! ## tsv text -/
+
+theorem dataCells_append (a b : List Line) : dataCells (a ++ b) = dataCells a ++ dataCells b := by
+  induction a with
+  | nil => rfl
+  | cons x t ih => cases x <;> simp [dataCells, ih]
+
+theorem commentCells_append (a b : List Line) :
+    commentCells (a ++ b) = commentCells a ++ commentCells b := by
+  induction a with
+  | nil => rfl
+  | cons x t ih => cases x <;> simp [commentCells, ih]
+
+theorem dataCells_comments (m : List (List String)) : dataCells (m.map Line.comment) = [] := by
+  induction m with
+  | nil => rfl
+  | cons x t ih => simpa [dataCells] using ih
+
+theorem commentCells_comments (m : List (List String)) : commentCells (m.map Line.comment) = m := by
+  induction m with
+  | nil => rfl
+  | cons x t ih => simp [commentCells, ih]
+
+theorem dataCells_data (rows : List (List String)) : dataCells (rows.map Line.data) = rows := by
+  induction rows with
+  | nil => rfl
+  | cons x t ih => simp [dataCells, ih]
+
+theorem commentCells_data (rows : List (List String)) : commentCells (rows.map Line.data) = [] := by
+  induction rows with
+  | nil => rfl
+  | cons x t ih => simpa [commentCells] using ih
+
+theorem text_shape (M : List (List String)) (h1 h2 : List String) (R : List (List String)) :
+    commentCells (M.map Line.comment ++ [Line.comment h1, Line.comment h2] ++ R.map Line.data)
+      = M ++ [h1, h2] ∧
+    dataCells (M.map Line.comment ++ [Line.comment h1, Line.comment h2] ++ R.map Line.data) = R := by
+  constructor
+  · rw [commentCells_append, commentCells_append, commentCells_comments, commentCells_data]
+    simp [commentCells]
+  · rw [dataCells_append, dataCells_append, dataCells_comments, dataCells_data]
+    simp [dataCells]
+
 end DclabModel.Export
